@@ -105,6 +105,10 @@ func DrawWorld(t *rapid.T, cfg WorldCfg) (*World, *Drawn) {
 	}
 	p := NewPKI(spec)
 	w := NewWorld(p, s)
+	if len(spec.RootCRLDP) >= 2 && rapid.Bool().Draw(t, "leadingDistributionPointsFail") {
+		w.RootDPFail = rapid.IntRange(1, len(spec.RootCRLDP)-1).Draw(t, "failingDPs")
+		d.add(true, "leading-crl-distribution-points-fail")
+	}
 	q := w.Q
 	// serial numbers are only unique per honest CA: a third of the worlds re-use one of two leaf serials, so that
 	// different certificates (other key, other SGX values) of one issuer collide on (issuer, serial) within a process
